@@ -56,6 +56,16 @@ def ev(node, env):
             r = env['__cls__'].find_attr(node.attr)
             if r is not None:
                 return ev(r[1], {'__funcs__': env.get('__funcs__')} if env.get('__funcs__') else {})
+        if isinstance(node.value, ast.Name) and node.value.id not in env and env.get('__mod__') is not None:
+            # a constant of a class of the analysed package used as a namespace (Encoding.CONSTRUCTED, Class.UNIVERSAL, Tag.SET)
+            try:
+                owner = env['__mod__'].resolve_name(node.value.id)
+            except Exception:
+                owner = None
+            if owner is not None and hasattr(owner, 'find_attr'):
+                r = owner.find_attr(node.attr)
+                if r is not None:
+                    return ev(r[1], {'__mod__': getattr(owner, 'mod', env['__mod__'])})
         if isinstance(node.value, ast.Name) and isinstance(env.get(node.value.id), Obj):
             # an object of the analysed program modelled by the rule as a record of attribute values
             o = env[node.value.id]
@@ -448,7 +458,7 @@ def run_function(f, env, max_steps=10000, skip_calls=False, tolerant=False):
                 key = s.target.id if isinstance(s.target, ast.Name) else ast.unparse(s.target)
                 env[key] = ev(ast.BinOp(left=s.target, op=s.op, right=s.value), env)
             elif isinstance(s, ast.Expr) and isinstance(s.value, ast.Call) and isinstance(s.value.func, ast.Attribute) \
-                    and s.value.func.attr in ('append', 'extend', 'reverse') and isinstance(s.value.func.value, ast.Name) \
+                    and s.value.func.attr in ('append', 'extend', 'reverse', 'insert', 'sort') and isinstance(s.value.func.value, ast.Name) \
                     and isinstance(env.get(s.value.func.value.id), (list, bytearray)):
                 # the interpreter's own lists / byte strings are mutable values
                 box = env[s.value.func.value.id]
